@@ -7,3 +7,7 @@ import Pyab.Properties.C11
 #print axioms Pyab.Properties.C11_recompile_same_is_noop
 #print axioms Pyab.Properties.C11_instance_local
 #print axioms Pyab.Properties.C11_call_changes_nothing
+#print axioms Pyab.Properties.purity_scan_nonempty
+#print axioms Pyab.Properties.no_flag_dependent_statements
+#print axioms Pyab.Properties.no_identity_dependence
+#print axioms Pyab.Properties.no_ambient_dependence
